@@ -46,6 +46,7 @@ type (
 		Body   SExpr
 	}
 	STypeLit struct{ Type string } // type[T]
+	SHeapLit struct{ Type string } // heap[T]
 )
 
 func (e *SIdent) String() string { return e.Name }
@@ -95,6 +96,7 @@ func (e *SQuant) String() string {
 	return "(" + q + " " + strings.Join(vs, ", ") + " :: " + e.Body.String() + ")"
 }
 func (e *STypeLit) String() string { return "type[" + e.Type + "]" }
+func (e *SHeapLit) String() string { return "heap[" + e.Type + "]" }
 
 type tok struct {
 	kind string // id int str op eof
@@ -402,7 +404,7 @@ func (sp *specParser) primary() SExpr {
 			return &SBool{false}
 		case "nil":
 			return &SNil{}
-		case "type":
+		case "type", "heap":
 			if sp.isOp("[") {
 				sp.p++
 				start := sp.peek().pos
@@ -425,6 +427,9 @@ func (sp *specParser) primary() SExpr {
 				}
 				typ := strings.TrimSpace(sp.src[start:sp.peek().pos])
 				sp.p++
+				if t.text == "heap" {
+					return &SHeapLit{typ}
+				}
 				return &STypeLit{typ}
 			}
 		}
